@@ -49,7 +49,7 @@ REQUIRED = ['reference_selfcheck', 'audit_hook_live', 'audit_open_inside_root', 
             'mounted_under_prefix', 'glued_to_mount', 'not_below_mount', 'percent_in_file_name',
             'range_206_single', 'range_206_multipart', 'range_416', 'range_malformed_full_200',
             'range_open_ended', 'range_suffix', 'range_beyond_eof', 'range_reversed', 'range_empty_file',
-            'request_on_kept_alive_connection', 'request_after_full_file_on_same_connection', 'request_after_partial_content_on_same_connection']
+            'static_without_default_documents', 'request_on_kept_alive_connection', 'request_after_full_file_on_same_connection', 'request_after_partial_content_on_same_connection']
 REQUIRED_OBLIGATIONS = ['MARKER', 'AUDIT', 'NO_5XX', 'ANSWERED', 'CONTENT', 'RANGE', 'CLEN']
 WORKER_TIMEOUT = {'quick': 300, 'thorough': 1500}
 
@@ -206,8 +206,8 @@ class World:
             self.trees[key] = {'top': top, 'root': root, 'lay': lay}
         return self.trees[key]
 
-    def env(self, fe, li, neutral, mount, dirlisting):
-        key = (fe, li, neutral, mount, dirlisting)
+    def env(self, fe, li, neutral, mount, dirlisting, defaults='std'):
+        key = (fe, li, neutral, mount, dirlisting, defaults)
         e = self.envs.get(key)
         if e is None or e['uses'] > 400:
             c = self.c
@@ -215,7 +215,9 @@ class World:
             w = c['Wire']()
             if fe == 'http':
                 c['HTTP'](w).register(w)
-            st = c['Static'](mount, docroot=t['root'], defaults=DEFAULTS, dirlisting=dirlisting).register(w)
+            # defaults: the shipped pair of default documents, or none at all (a pure file browser: () or [])
+            dflt = DEFAULTS if defaults == 'std' else (() if defaults == 'tuple' else [])
+            st = c['Static'](mount, docroot=t['root'], defaults=dflt, dirlisting=dirlisting).register(w)
             if neutral:
                 # twin of K_CONTAIN: the same root spelt "<root>/." - dirname() of it is the root itself, so
                 # the containment test of this tree is made against the root instead of its parent
@@ -226,8 +228,8 @@ class World:
         return e['w']
 
     # -- one request -----------------------------------------------------------------------------
-    def request(self, fe, li, neutral, mount, dirlisting, path, range_header, before=()):
-        w = self.env(fe, li, neutral, mount, dirlisting)
+    def request(self, fe, li, neutral, mount, dirlisting, path, range_header, before=(), defaults='std'):
+        w = self.env(fe, li, neutral, mount, dirlisting, defaults)
         w.take()
         del w.exceptions[:]
         o = Obs()
@@ -432,14 +434,14 @@ def listing_matches(body, rel):
     return bool(names) and got <= entries and got >= visible
 
 
-def content_verdict(path, mount, dirlisting, tree, body, fe='direct'):
+def content_verdict(path, mount, dirlisting, tree, body, fe='direct', defaults='std'):
     """Which inside object (if any) explains a 200 body for ``path``: ('file'|'default'|'listing', rel) or None."""
     for cand in sorted(ref.denotations(path, mount, tree['root'], network_path=(fe == 'http'))):
         rel = '/'.join(cand)
         if rel in INSIDE and body == INSIDE[rel]:
             return ('file', rel)
         if rel in DIRS:
-            for d in DEFAULTS:
+            for d in (DEFAULTS if defaults == 'std' else ()):
                 k = (rel + '/' + d) if rel else d
                 if k in INSIDE and body == INSIDE[k]:
                     return ('default', k)
@@ -472,7 +474,9 @@ def evaluate(world, case, neutral=False):
     if case['family'] == 'range':
         header = case['prefix'] + case['sep'].join(case['specs']) if case['specs'] is not None else None
     before = [(('' if mount is None else mount.rstrip('/')) + '/' + rel, rng_h) for rel, rng_h in case.get('before', ())] if case['fe'] == 'http' else []
-    o = world.request(case['fe'], case['layout'], neutral, mount, case.get('dirlisting', False), path, header, before)
+    o = world.request(case['fe'], case['layout'], neutral, mount, case.get('dirlisting', False), path, header, before, case.get('defaults', 'std'))
+    if case.get('defaults', 'std') != 'std':
+        counters['static_without_default_documents'] = 1
     info['status'] = o.status
     if o.kept:
         counters['request_on_kept_alive_connection'] = 1
@@ -495,7 +499,7 @@ def evaluate(world, case, neutral=False):
             counters['guard_redirect'] = 1
         if 200 <= o.status < 300:
             evaluated.append('CONTENT')
-            v = content_verdict(path, mount, case.get('dirlisting', False), tree, o.body, case['fe']) if o.status == 200 else None
+            v = content_verdict(path, mount, case.get('dirlisting', False), tree, o.body, case['fe'], case.get('defaults', 'std')) if o.status == 200 else None
             if v is None:
                 probs.append(('CONTENT', {
                     'what': 'a %s answer whose body is not the inside object the normalised path denotes' % o.status,
@@ -781,6 +785,14 @@ def corpus():
                 cases.append(dict(path_case(fe, li, mount, True, ['']), path=mount))
             for t in ['f10.txt', '../secret.txt', 'sub/']:
                 cases.append(path_case(fe, li, '/', True, t.split('/')))
+    # no default documents configured (defaults=() / []): directories are listed (or refused), never taken from anywhere else
+    for fe in ('http', 'direct'):
+        for li in (0, 1):
+            for mount in (None, '/static'):
+                for dk in ('tuple', 'list'):
+                    for dl in (True, False):
+                        for t in ['', 'sub/', 'sub', 'sub2/', 'sub/%2e%2e/', 'sub/../', '../', '%2e%2e/', 'sub/in.txt', 'f10.txt', 'sub/index.html', '../{sib}/', 'sub/../sub2/']:
+                            cases.append(dict(path_case(fe, li, mount, dl, t.split('/')), defaults=dk))
     # persistent connections: the request under test is the 2nd-4th on its connection, after full-file, partial, listing, refused answers
     preludes = [[['f10.txt', None]], [['big.txt', None], ['sub/in.txt', None]], [['f10.txt', 'bytes=2-4']], [['sub/', None]],
                 [['nonexistent', None], ['f10.txt', None]], [['big.txt', 'bytes=0-1,5-6']], [['e0.txt', None], ['pA.txt', None], ['sub2/other.bin', None]]]
@@ -836,6 +848,8 @@ def gen_path(rng):
     else:
         below = True
     case = path_case(fe, li, mount, dl, segs, glue=glue, below=below)
+    if rng.random() < 0.15:
+        case['defaults'] = rng.choice(['tuple', 'list'])
     if fe == 'http' and rng.random() < 0.35:
         case['before'] = gen_before(rng)
     return case
